@@ -1,2 +1,670 @@
-From MJ Require Import Common.Base Lang.Syntax Lang.Meta Lang.Interp C04.Model.
-Lemma stub_proof : as_const (EConst LNone) = Some VNone. Proof. reflexivity. Qed.
+(* C04 proofs: the folder agrees with run-time evaluation (fold_agrees), never folds a failing
+   evaluation (fold_defers_errors), compiling is transparent (compile_transparent), and hoisting
+   literals into variables bound to the same values changes nothing (hoist_equiv). *)
+From MJ Require Import Common.Base Lang.Syntax Lang.Meta Lang.Interp C04.Model C04.Spec.
+
+(* ------------------------------------------------------------------------------------------ *)
+(* small facts                                                                                  *)
+(* ------------------------------------------------------------------------------------------ *)
+Lemma lit_value_spec l : lit_value l = value_of_lit l.
+Proof. destruct l; reflexivity. Qed.
+
+Lemma lit_defined l : is_undef (lit_value l) = false.
+Proof. destruct l; reflexivity. Qed.
+
+Lemma depth_pos e : (1 <= depth e)%nat.
+Proof. destruct e; cbn [depth]; lia. Qed.
+
+Lemma maxmap_in {X} (f : X -> nat) l x : In x l -> (f x <= maxmap f l)%nat.
+Proof.
+  induction l as [|y r IH]; cbn [maxmap In]; [tauto|].
+  intros [->|H]; [lia|]. specialize (IH H). lia.
+Qed.
+
+Lemma eval_const c fuel esc s l : eval c (S fuel) esc s (EConst l) = Ok (lit_value l, s).
+Proof. destruct l; reflexivity. Qed.
+
+Lemma u_is_true_defined m v : is_undef v = false -> u_is_true m v = Ok (truthy v).
+Proof. destruct m, v; cbn; intros; try discriminate; reflexivity. Qed.
+
+Lemma u_not_undef_defined m v : is_undef v = false -> u_not_undef m v = Ok tt.
+Proof.
+  unfold u_not_undef. destruct v; cbn; intros; try discriminate; rewrite ?andb_false_r; reflexivity.
+Qed.
+
+Lemma do_bin_defined op x y v : do_bin op x y = Ok v -> is_undef v = false.
+Proof.
+  destruct op, x, y; cbn; intros H; try discriminate;
+    repeat match type of H with
+           | (if ?b then _ else _) = _ => destruct b
+           | (let q := _ in _) = _ => cbv zeta in H
+           end; try discriminate; inversion H; reflexivity.
+Qed.
+
+Lemma do_neg_defined x v : do_neg x = Ok v -> is_undef v = false.
+Proof. destruct x; cbn; intros H; try discriminate; inversion H; reflexivity. Qed.
+
+Lemma ok_of_some {A} (o : outcome A) a : ok_of o = Some a -> o = Ok a.
+Proof. destruct o; cbn; intros H; try discriminate; inversion H; reflexivity. Qed.
+
+Lemma contains_defined_container y x : is_undef y = false -> forall r, contains y x = Ok r -> True.
+Proof. trivial. Qed.
+
+(* eval_compare is the VM's comparison on defined operands *)
+Lemma eval_compare_do_cmp m op x y v :
+  is_undef x = false -> is_undef y = false -> eval_compare op x y = Some v ->
+  exists r, v = VBool r /\ do_cmp m op x y = Ok r.
+Proof.
+  intros Hx Hy H. unfold do_cmp.
+  rewrite (u_not_undef_defined m x Hx), (u_not_undef_defined m y Hy).
+  destruct op; cbn [eval_compare] in H; cbn [bind];
+    try (inversion H; eexists; split; reflexivity).
+  - destruct (contains y x) eqn:E; cbn in H; try discriminate. inversion H. eexists; split; reflexivity.
+  - destruct (contains y x) eqn:E; cbn in H; try discriminate. inversion H. eexists; split; reflexivity.
+Qed.
+
+(* ------------------------------------------------------------------------------------------ *)
+(* fold_agrees                                                                                   *)
+(* ------------------------------------------------------------------------------------------ *)
+Lemma const_values_eval c fuel esc items vs :
+  const_values items = Some vs ->
+  forall s, map_eval (eval c (S fuel) esc) s items = Ok (vs, s).
+Proof.
+  revert vs. induction items as [|x r IH]; intros vs H s.
+  - inversion H. reflexivity.
+  - destruct x; try discriminate. cbn [const_values] in H.
+    destruct (const_values r) as [vr|] eqn:E; try discriminate. inversion H; subst.
+    cbn [map_eval]. rewrite eval_const. cbn [bind]. change (map_eval (eval c (S fuel) esc)) with (map_eval (eval c (S fuel) esc)).
+    fold (map_eval (eval c (S fuel) esc)). rewrite (IH vr eq_refl). reflexivity.
+Qed.
+
+Section Agree.
+Variable c : cfg.
+Variable esc : bool.
+Let m := c_mode c.
+
+Definition agrees (fuel : nat) (e : expr) : Prop :=
+  forall v, as_const e = Some v -> is_undef v = false /\ forall s, eval c fuel esc s e = Ok (v, s).
+
+(* the Compare loop against cmp_chain, given agreement on the operands *)
+Lemma chain_agrees fuel rest :
+  (forall p, In p rest -> agrees fuel (snd p)) ->
+  forall left v, is_undef left = false -> fold_chain as_const left rest = Some v ->
+  is_undef v = false /\ forall s, cmp_chain m (eval c fuel esc) left s rest = Ok (v, s).
+Proof.
+  induction rest as [|[op r] l' IH]; intros Hop left v Hl H.
+  - inversion H. split; [reflexivity|]. intros s. reflexivity.
+  - cbn [fold_chain] in H.
+    destruct (as_const r) as [right|] eqn:Er; cbn [obind] in H; try discriminate.
+    destruct (eval_compare op left right) as [res|] eqn:Ec; cbn [obind] in H; try discriminate.
+    destruct (Hop (op, r) (or_introl eq_refl) right Er) as [Hr Hev].
+    destruct (eval_compare_do_cmp m op left right res Hl Hr Ec) as [b [-> Hd]].
+    assert (IH' := IH (fun p Hp => Hop p (or_intror Hp)) right).
+    cbn [truthy] in H.
+    assert (Hres : is_undef v = false /\ forall s,
+              (match l' with
+               | [] => Ok (VBool b, s)
+               | _ :: _ => if b then cmp_chain m (eval c fuel esc) right s l' else Ok (VBool false, s)
+               end) = Ok (v, s)).
+    { destruct b.
+      - destruct (IH' v Hr H) as [Hv Hc]. split; [exact Hv|]. intros s.
+        destruct l'; [|apply Hc]. inversion H. reflexivity.
+      - inversion H. split; [reflexivity|]. intros s. destruct l'; reflexivity. }
+    destruct Hres as [Hv Hc]. split; [exact Hv|]. intros s.
+    cbn [cmp_chain]. rewrite Hev. cbn [bind]. rewrite Hd. cbn [bind]. apply Hc.
+Qed.
+
+Lemma agrees_all : forall fuel e, (depth e <= fuel)%nat -> agrees fuel e.
+Proof.
+  induction fuel as [|fuel IH]; intros e Hd.
+  { pose proof (depth_pos e). lia. }
+  assert (IHs : forall a, (depth a <= fuel)%nat -> forall x, as_const a = Some x ->
+                  is_undef x = false /\ forall s, eval c fuel esc s a = Ok (x, s)).
+  { intros a Ha. exact (IH a Ha). }
+  intros v H. destruct e; cbn [depth] in Hd; unfold as_const in H; cbn [as_const_gen] in H;
+    fold as_const in H; try discriminate.
+  - (* EConst *) inversion H; subst. split; [apply lit_defined|]. intros s. apply eval_const.
+  - (* EList *)
+    destruct (const_values items) as [vs|] eqn:E; cbn [omap] in H; try discriminate. inversion H; subst.
+    split; [reflexivity|]. intros s.
+    destruct fuel as [|fuel'].
+    + destruct items as [|x r]; [inversion E; reflexivity|]. cbn [maxmap] in Hd. pose proof (depth_pos x). lia.
+    + cbn [eval]. rewrite (const_values_eval c fuel' esc items vs E). reflexivity.
+  - (* ENeg *)
+    destruct (as_const e) as [x|] eqn:E; cbn [obind] in H; try discriminate.
+    apply ok_of_some in H. destruct (IHs e ltac:(lia) x E) as [Hx Hev].
+    split; [eapply do_neg_defined; eauto|]. intros s. cbn [eval]. rewrite Hev. cbn [bind].
+    destruct x; cbn in H; try discriminate. inversion H. reflexivity.
+  - (* ENot *)
+    destruct (as_const e) as [x|] eqn:E; cbn [omap] in H; try discriminate. inversion H; subst.
+    destruct (IHs e ltac:(lia) x E) as [Hx Hev]. split; [reflexivity|]. intros s.
+    cbn [eval]. rewrite Hev. cbn [bind]. fold m. rewrite (u_is_true_defined m x Hx). reflexivity.
+  - (* EBin *)
+    destruct (as_const e1) as [x|] eqn:E1; try discriminate.
+    destruct (as_const e2) as [y|] eqn:E2; try discriminate.
+    apply ok_of_some in H.
+    destruct (IHs e1 ltac:(lia) x E1) as [Hx Hev1]. destruct (IHs e2 ltac:(lia) y E2) as [Hy Hev2].
+    split; [eapply do_bin_defined; eauto|]. intros s.
+    cbn [eval]. rewrite Hev1. cbn [bind]. rewrite Hev2. cbn [bind]. fold m.
+    rewrite (u_not_undef_defined m x Hx), (u_not_undef_defined m y Hy).
+    assert (Hg : match op with OConcat => bind (Ok tt) (fun _ : unit => Ok tt) | _ => Ok tt end = (Ok tt : outcome unit))
+      by (destruct op; reflexivity).
+    rewrite Hg. cbn [bind]. rewrite H. reflexivity.
+  - (* ECmp *)
+    destruct rest as [|[op b] rest'].
+    + (* no comparison at all *)
+      destruct (as_const e) as [x|] eqn:E; cbn [obind fold_chain] in H; try discriminate. inversion H; subst.
+      destruct (IHs e ltac:(lia) x E) as [Hx Hev]. split; [reflexivity|]. intros s.
+      cbn [eval]. rewrite Hev. reflexivity.
+    + cbn [maxmap snd] in Hd.
+      destruct rest' as [|p2 rest''].
+      * (* one comparison: BinOp / Not(BinOp(In)) *)
+        assert (Hshape : exists x y, as_const e = Some x /\ as_const b = Some y /\
+                  (match op with
+                   | CNotIn => omap (fun v => VBool (negb (truthy v))) (eval_compare CIn x y)
+                   | _ => eval_compare op x y end) = Some v).
+        { destruct op; destruct (as_const e) as [x|]; try discriminate;
+            destruct (as_const b) as [y|]; try discriminate; exists x, y; repeat split; exact H. }
+        destruct Hshape as [x [y [E1 [E2 Hv]]]].
+        destruct (IHs e ltac:(lia) x E1) as [Hx Hev1]. destruct (IHs b ltac:(lia) y E2) as [Hy Hev2].
+        assert (Hr : exists r, v = VBool r /\ do_cmp m op x y = Ok r).
+        { destruct op; try solve [eapply eval_compare_do_cmp; eassumption].
+          destruct (eval_compare CIn x y) as [w|] eqn:Ew; cbn [omap] in Hv; try discriminate.
+          destruct (eval_compare_do_cmp m CIn x y w Hx Hy Ew) as [r [-> Hd']].
+          inversion Hv. exists (negb r). split; [reflexivity|].
+          unfold do_cmp in *. rewrite (u_not_undef_defined m y Hy), (u_not_undef_defined m x Hx) in *.
+          cbn [bind] in *. destruct (contains y x); cbn [bind] in *; try discriminate. inversion Hd'. reflexivity. }
+        destruct Hr as [r [-> Hd']]. split; [reflexivity|]. intros s.
+        cbn [eval]. rewrite Hev1. cbn [bind cmp_chain]. rewrite Hev2. cbn [bind]. fold m. rewrite Hd'. reflexivity.
+      * (* a chain *)
+        assert (Hshape : exists x, as_const e = Some x /\ fold_chain as_const x ((op, b) :: p2 :: rest'') = Some v).
+        { destruct op; destruct (as_const e) as [x|]; try discriminate; exists x; (split; [reflexivity|exact H]). }
+        destruct Hshape as [x [E1 Hc]].
+        destruct (IHs e ltac:(lia) x E1) as [Hx Hev1].
+        assert (Hops : forall p, In p ((op, b) :: p2 :: rest'') -> agrees fuel (snd p)).
+        { intros p Hp. apply IH.
+          pose proof (maxmap_in (fun p => depth (snd p)) ((op, b) :: p2 :: rest'') p Hp) as Hm.
+          cbn [maxmap snd] in Hm. cbn [maxmap snd] in Hd. lia. }
+        destruct (chain_agrees fuel _ Hops x v Hx Hc) as [Hv Hch]. split; [exact Hv|]. intros s.
+        cbn [eval]. rewrite Hev1. cbn [bind]. fold m. apply Hch.
+  - (* EAnd *)
+    destruct (as_const e1) as [x|] eqn:E1; try discriminate.
+    destruct (as_const e2) as [y|] eqn:E2; try discriminate. inversion H; subst.
+    destruct (IHs e1 ltac:(lia) x E1) as [Hx Hev1]. destruct (IHs e2 ltac:(lia) y E2) as [Hy Hev2].
+    unfold fold_and. split; [destruct (truthy x); assumption|]. intros s.
+    cbn [eval]. rewrite Hev1. cbn [bind]. fold m. rewrite (u_is_true_defined m x Hx). cbn [bind].
+    destruct (truthy x); [apply Hev2|reflexivity].
+  - (* EOr *)
+    destruct (as_const e1) as [x|] eqn:E1; try discriminate.
+    destruct (as_const e2) as [y|] eqn:E2; try discriminate. inversion H; subst.
+    destruct (IHs e1 ltac:(lia) x E1) as [Hx Hev1]. destruct (IHs e2 ltac:(lia) y E2) as [Hy Hev2].
+    unfold fold_or. split; [destruct (truthy x); assumption|]. intros s.
+    cbn [eval]. rewrite Hev1. cbn [bind]. fold m. rewrite (u_is_true_defined m x Hx). cbn [bind].
+    destruct (truthy x); [reflexivity|apply Hev2].
+Qed.
+End Agree.
+
+Lemma fold_agrees_proof : forall e v, as_const e = Some v ->
+  forall c fuel esc s, (depth e <= fuel)%nat -> eval c fuel esc s e = Ok (v, s).
+Proof. intros e v H c fuel esc s Hd. exact (proj2 (agrees_all c esc fuel e Hd v H) s). Qed.
+
+Lemma fold_defined_proof : forall e v, as_const e = Some v -> is_undef v = false.
+Proof. intros e v H. exact (proj1 (agrees_all (mkCfg Lenient [] false) false (depth e) e (le_n _) v H)). Qed.
+
+Lemma fold_defers_errors_proof : forall e c fuel esc s, (depth e <= fuel)%nat ->
+  (forall v s', eval c fuel esc s e <> Ok (v, s')) -> as_const e = None.
+Proof.
+  intros e c fuel esc s Hd Hne. destruct (as_const e) as [v|] eqn:E; [|reflexivity].
+  exfalso. exact (Hne v s (fold_agrees_proof e v E c fuel esc s Hd)).
+Qed.
+
+Lemma compile_transparent_proof : forall e c fuel esc s, (depth e <= fuel)%nat ->
+  run_compiled c fuel esc s (compile_expr e) = eval c fuel esc s e.
+Proof.
+  intros e c fuel esc s Hd. unfold compile_expr. destruct (as_const e) as [v|] eqn:E; cbn [run_compiled]; [|reflexivity].
+  symmetry. apply fold_agrees_proof; assumption.
+Qed.
+
+(* ------------------------------------------------------------------------------------------ *)
+(* hoisting literals into variables                                                             *)
+(* ------------------------------------------------------------------------------------------ *)
+Lemma same_refl s : same s s.
+Proof. repeat split. Qed.
+
+Lemma same_trans s t u : same s t -> same t u -> same s u.
+Proof. intros (A & B & C) (A' & B' & C'). repeat split; congruence. Qed.
+
+Lemma same_sym s t : same s t -> same t s.
+Proof. intros (A & B & C). repeat split; congruence. Qed.
+
+Lemma same_step s1 s2 t1 t2 : same s1 s2 -> same s1 t1 -> same s2 t2 -> same t1 t2.
+Proof. intros A B C. eapply same_trans; [apply same_sym; exact B|]. eapply same_trans; [exact A|exact C]. Qed.
+
+Lemma bound_same c s t sigma : same s t -> bound c s sigma -> bound c t sigma.
+Proof. intros (A & B & _) H x l Hx. rewrite <- A, <- B. exact (H x l Hx). Qed.
+
+Lemma lookup_same c s x : same s (snd (lookup c s x)).
+Proof.
+  unfold lookup. destruct (load c (s_clos s) (s_env s) x) as [v asked]. destruct asked; repeat split.
+Qed.
+
+Lemma lookup_fst c s x : fst (lookup c s x) = fst (load c (s_clos s) (s_env s) x).
+Proof. unfold lookup. destruct (load c (s_clos s) (s_env s) x) as [v asked]. reflexivity. Qed.
+
+Lemma res_rel_weaken {A} s1 s2 t1 t2 (r1 r2 : outcome (A * st)) :
+  same s1 t1 -> same s2 t2 -> res_rel t1 t2 r1 r2 -> res_rel s1 s2 r1 r2.
+Proof.
+  intros H1 H2. unfold res_rel. destruct r1 as [[v1 u1]| | |], r2 as [[v2 u2]| | |]; try tauto.
+  intros (E & A1 & A2). repeat split; try exact E; eapply same_trans; eauto.
+Qed.
+
+Lemma bind_rel {A B} s1 s2 (r1 r2 : outcome (A * st)) (k1 k2 : A * st -> outcome (B * st)) :
+  res_rel s1 s2 r1 r2 ->
+  (forall v t1 t2, same s1 t1 -> same s2 t2 -> res_rel s1 s2 (k1 (v, t1)) (k2 (v, t2))) ->
+  res_rel s1 s2 (bind r1 k1) (bind r2 k2).
+Proof.
+  intros H K. destruct r1 as [[v1 u1]| | |], r2 as [[v2 u2]| | |]; cbn [res_rel bind] in *; try tauto.
+  destruct H as (-> & A1 & A2). apply K; assumption.
+Qed.
+
+Lemma bind_pure_rel {A B} s1 s2 (o : outcome A) (k1 k2 : A -> outcome (B * st)) :
+  (forall a, res_rel s1 s2 (k1 a) (k2 a)) -> res_rel s1 s2 (bind o k1) (bind o k2).
+Proof. intros K. destruct o; cbn [bind res_rel]; auto. Qed.
+
+Lemma res_rel_ok {A} s1 s2 t1 t2 (v : A) : same s1 t1 -> same s2 t2 -> res_rel s1 s2 (Ok (v, t1)) (Ok (v, t2)).
+Proof. intros. cbn. auto. Qed.
+
+Lemma res_rel_err {A} s1 s2 k : @res_rel A s1 s2 (Err k) (Err k).
+Proof. reflexivity. Qed.
+
+Section Hoist.
+Variable c : cfg.
+Variable esc : bool.
+Variable sigma : name -> option lit.
+Let m := c_mode c.
+
+(* the statement for one evaluator call *)
+Definition hoist_ok (ev : st -> expr -> outcome (value * st)) (x : expr) : Prop :=
+  pure x = true -> forall s1 s2, same s1 s2 -> bound c s1 sigma -> res_rel s1 s2 (ev s1 x) (ev s2 (subst sigma x)).
+
+Lemma map_eval_rel ev items :
+  (forall x, In x items -> hoist_ok ev x) -> forallb pure items = true ->
+  forall s1 s2, same s1 s2 -> bound c s1 sigma ->
+  res_rel s1 s2 (map_eval ev s1 items) (map_eval ev s2 (map (subst sigma) items)).
+Proof.
+  induction items as [|x r IH]; intros Hev Hp s1 s2 Hs Hb.
+  - cbn. auto using same_refl.
+  - cbn [forallb] in Hp. apply andb_prop in Hp as [Hpx Hpr]. cbn [map map_eval].
+    apply bind_rel; [apply Hev; auto; left; reflexivity|].
+    intros v t1 t2 H1 H2. cbn beta iota.
+    apply bind_rel.
+    + eapply res_rel_weaken; eauto. apply IH; auto.
+      * intros y Hy. apply Hev. right. exact Hy.
+      * exact (same_step _ _ _ _ Hs H1 H2).
+      * eapply bound_same; eauto.
+    + intros vs u1 u2 A1 A2. cbn beta iota. apply res_rel_ok; assumption.
+Qed.
+
+Lemma cmp_chain_rel ev rest :
+  (forall p, In p rest -> hoist_ok ev (snd p)) -> forallb (fun p => pure (snd p)) rest = true ->
+  forall left s1 s2, same s1 s2 -> bound c s1 sigma ->
+  res_rel s1 s2 (cmp_chain m ev left s1 rest) (cmp_chain m ev left s2 (map (fun p => (fst p, subst sigma (snd p))) rest)).
+Proof.
+  induction rest as [|[op r] l' IH]; intros Hev Hp left s1 s2 Hs Hb.
+  - cbn. auto using same_refl.
+  - cbn [forallb snd] in Hp. apply andb_prop in Hp as [Hpx Hpr]. cbn [map cmp_chain fst snd].
+    apply bind_rel; [apply (Hev (op, r)); auto; left; reflexivity|].
+    intros y t1 t2 H1 H2. cbn beta iota.
+    apply bind_pure_rel. intros b.
+    destruct l' as [|p l''].
+    + cbn [map]. apply res_rel_ok; assumption.
+    + cbn [map]. destruct b; [|apply res_rel_ok; assumption].
+      eapply res_rel_weaken; eauto.
+      apply (IH (fun q Hq => Hev q (or_intror Hq)) Hpr y).
+      * exact (same_step _ _ _ _ Hs H1 H2).
+      * eapply bound_same; eauto.
+Qed.
+
+Lemma hoist_all : forall fuel e, hoist_ok (eval c fuel esc) e.
+Proof.
+  induction fuel as [|fuel IH]; intros e Hp s1 s2 Hs Hb.
+  { cbn. exact I. }
+  (* evaluating a sub-expression from later states *)
+  assert (IHk : forall a t1 t2, pure a = true -> same s1 t1 -> same s2 t2 ->
+            res_rel s1 s2 (eval c fuel esc t1 a) (eval c fuel esc t2 (subst sigma a))).
+  { intros a t1 t2 Ha H1 H2. eapply res_rel_weaken; eauto. apply IH; auto.
+    - exact (same_step _ _ _ _ Hs H1 H2).
+    - eapply bound_same; eauto. }
+  assert (IHl : forall args t1 t2, forallb pure args = true -> same s1 t1 -> same s2 t2 ->
+            res_rel s1 s2 (map_eval (eval c fuel esc) t1 args) (map_eval (eval c fuel esc) t2 (map (subst sigma) args))).
+  { intros args t1 t2 Ha H1 H2. eapply res_rel_weaken; eauto.
+    apply map_eval_rel; [intros x _; apply IH | assumption | exact (same_step _ _ _ _ Hs H1 H2) | eapply bound_same; eauto]. }
+  destruct e; cbn [pure] in Hp; cbn [subst].
+  - (* EConst *) rewrite !eval_const. apply res_rel_ok; apply same_refl.
+  - (* EVar *)
+    destruct (sigma x) as [l|] eqn:Ex.
+    + rewrite eval_const. cbn [eval].
+      pose proof (lookup_same c s1 x) as Hl. pose proof (lookup_fst c s1 x) as Hf.
+      destruct (lookup c s1 x) as [v u]. cbn [fst snd] in *.
+      rewrite (Hb x l Ex) in Hf. subst v. change (lit_value l) with (value_of_lit l). apply res_rel_ok; [exact Hl|apply same_refl].
+    + cbn [eval].
+      pose proof (lookup_same c s1 x) as Hl1. pose proof (lookup_fst c s1 x) as Hf1.
+      pose proof (lookup_same c s2 x) as Hl2. pose proof (lookup_fst c s2 x) as Hf2.
+      destruct (lookup c s1 x) as [v1 u1]. destruct (lookup c s2 x) as [v2 u2]. cbn [fst snd] in *.
+      destruct Hs as (A & B & _). rewrite <- A, <- B in Hf2. rewrite <- Hf1 in Hf2. subst v2.
+      apply res_rel_ok; assumption.
+  - (* EList *)
+    cbn [eval]. apply bind_rel; [apply IHl; auto using same_refl|].
+    intros vs t1 t2 H1 H2. cbn beta iota. apply res_rel_ok; assumption.
+  - (* ENeg *)
+    cbn [eval]. apply bind_rel; [apply IHk; auto using same_refl|].
+    intros v t1 t2 H1 H2. cbn beta iota. destruct v; try apply res_rel_err. apply res_rel_ok; assumption.
+  - (* ENot *)
+    cbn [eval]. apply bind_rel; [apply IHk; auto using same_refl|].
+    intros v t1 t2 H1 H2. cbn beta iota. apply bind_pure_rel. intros b. apply res_rel_ok; assumption.
+  - (* EBin *)
+    apply andb_prop in Hp as [Hp1 Hp2].
+    cbn [eval]. apply bind_rel; [apply IHk; auto using same_refl|].
+    intros x t1 t2 H1 H2. cbn beta iota. apply bind_rel; [apply IHk; auto|].
+    intros y u1 u2 A1 A2. cbn beta iota. apply bind_pure_rel. intros _. apply bind_pure_rel. intros r.
+    apply res_rel_ok; assumption.
+  - (* ECmp *)
+    apply andb_prop in Hp as [Hp1 Hp2].
+    cbn [eval]. apply bind_rel; [apply IHk; auto using same_refl|].
+    intros x t1 t2 H1 H2. cbn beta iota. eapply res_rel_weaken; eauto.
+    apply cmp_chain_rel; [intros p _; apply IH | assumption | exact (same_step _ _ _ _ Hs H1 H2) | eapply bound_same; eauto].
+  - (* EAnd *)
+    apply andb_prop in Hp as [Hp1 Hp2].
+    cbn [eval]. apply bind_rel; [apply IHk; auto using same_refl|].
+    intros x t1 t2 H1 H2. cbn beta iota. apply bind_pure_rel. intros t.
+    destruct t; [apply IHk; auto|apply res_rel_ok; assumption].
+  - (* EOr *)
+    apply andb_prop in Hp as [Hp1 Hp2].
+    cbn [eval]. apply bind_rel; [apply IHk; auto using same_refl|].
+    intros x t1 t2 H1 H2. cbn beta iota. apply bind_pure_rel. intros t.
+    destruct t; [apply res_rel_ok; assumption|apply IHk; auto].
+  - (* EIf *)
+    apply andb_prop in Hp as [Hp12 Hp3]. apply andb_prop in Hp12 as [Hp1 Hp2].
+    cbn [eval]. apply bind_rel; [apply IHk; auto using same_refl|].
+    intros x t1 t2 H1 H2. cbn beta iota. apply bind_pure_rel. intros b.
+    destruct b; [apply IHk; auto|].
+    destruct f as [f|]; [apply IHk; auto|apply res_rel_ok; assumption].
+  - (* EItem *)
+    apply andb_prop in Hp as [Hp1 Hp2].
+    cbn [eval]. apply bind_rel; [apply IHk; auto using same_refl|].
+    intros x t1 t2 H1 H2. cbn beta iota. apply bind_rel; [apply IHk; auto|].
+    intros k u1 u2 A1 A2. cbn beta iota.
+    destruct (match x, k with VList l, VInt z => idx_list l z | _, _ => None end).
+    + apply res_rel_ok; assumption.
+    + apply bind_pure_rel. intros v. apply res_rel_ok; assumption.
+  - (* EAttr *)
+    cbn [eval]. apply bind_rel; [apply IHk; auto using same_refl|].
+    intros x t1 t2 H1 H2. cbn beta iota.
+    destruct (match x with VLoop i n => loop_attr i n a | _ => None end).
+    + apply res_rel_ok; assumption.
+    + apply bind_pure_rel. intros v. apply res_rel_ok; assumption.
+  - (* EFilter *)
+    apply andb_prop in Hp as [Hp1 Hp2].
+    cbn [eval]. apply bind_rel; [apply IHk; auto using same_refl|].
+    intros x t1 t2 H1 H2. cbn beta iota. apply bind_rel; [apply IHl; auto|].
+    intros vs u1 u2 A1 A2. cbn beta iota. apply bind_pure_rel. intros r. apply res_rel_ok; assumption.
+  - (* ETest *)
+    apply andb_prop in Hp as [Hp1 Hp2].
+    cbn [eval]. apply bind_rel; [apply IHk; auto using same_refl|].
+    intros x t1 t2 H1 H2. cbn beta iota. apply bind_rel; [apply IHl; auto|].
+    intros vs u1 u2 A1 A2. cbn beta iota. apply bind_pure_rel. intros r. apply res_rel_ok; assumption.
+  - (* ECall *) discriminate.
+Qed.
+End Hoist.
+
+Lemma hoist_equiv_proof : forall c sigma e esc fuel s1 s2,
+  pure e = true -> same s1 s2 -> bound c s1 sigma ->
+  res_rel s1 s2 (eval c fuel esc s1 e) (eval c fuel esc s2 (subst sigma e)).
+Proof. intros. apply hoist_all; assumption. Qed.
+
+(* ------------------------------------------------------------------------------------------ *)
+(* hoisting does not change the nesting depth                                                   *)
+(* ------------------------------------------------------------------------------------------ *)
+Lemma maxmap_map_ext {X} (f g : X -> nat) (h : X -> X) l :
+  (forall x, In x l -> g (h x) = f x) -> maxmap g (map h l) = maxmap f l.
+Proof.
+  induction l as [|x r IH]; intros H; cbn [map maxmap]; [reflexivity|].
+  rewrite (H x (or_introl eq_refl)), IH; [reflexivity|]. intros y Hy. apply H. right. exact Hy.
+Qed.
+
+Lemma depth_subst_bounded sigma : forall n e, (depth e <= n)%nat -> depth (subst sigma e) = depth e.
+Proof.
+  induction n as [|n IH]; intros e Hd.
+  { pose proof (depth_pos e). lia. }
+  assert (IHl : forall l, (maxmap depth l <= n)%nat -> maxmap depth (map (subst sigma) l) = maxmap depth l).
+  { intros l Hl. apply maxmap_map_ext. intros x Hx. apply IH. pose proof (maxmap_in depth l x Hx). lia. }
+  assert (IHp : forall A (l : list (A * expr)), (maxmap (fun p => depth (snd p)) l <= n)%nat ->
+            maxmap (fun p => depth (snd p)) (map (fun p => (fst p, subst sigma (snd p))) l) = maxmap (fun p => depth (snd p)) l).
+  { intros A l Hl. apply maxmap_map_ext. intros x Hx. cbn [snd]. apply IH.
+    pose proof (maxmap_in (fun p => depth (snd p)) l x Hx). cbn beta in *. lia. }
+  destruct e; cbn [subst depth] in *; try reflexivity.
+  - destruct (sigma x); reflexivity.
+  - rewrite IHl by lia. reflexivity.
+  - rewrite IH by lia. reflexivity.
+  - rewrite IH by lia. reflexivity.
+  - rewrite (IH e1), (IH e2) by lia. reflexivity.
+  - rewrite (IH e), IHp by lia. reflexivity.
+  - rewrite (IH e1), (IH e2) by lia. reflexivity.
+  - rewrite (IH e1), (IH e2) by lia. reflexivity.
+  - rewrite (IH e1), (IH e2) by lia. destruct f as [f|]; [rewrite (IH f) by lia|]; reflexivity.
+  - rewrite (IH e1), (IH e2) by lia. reflexivity.
+  - rewrite IH by lia. reflexivity.
+  - rewrite (IH e), IHl by lia. reflexivity.
+  - rewrite (IH e), IHl by lia. reflexivity.
+  - rewrite IHl, IHp by lia. reflexivity.
+Qed.
+
+Lemma depth_subst sigma e : depth (subst sigma e) = depth e.
+Proof. apply (depth_subst_bounded sigma (depth e)). lia. Qed.
+
+(* ------------------------------------------------------------------------------------------ *)
+(* the property: compiled literal form vs compiled hoisted form                                 *)
+(* ------------------------------------------------------------------------------------------ *)
+Lemma literal_variable_equiv_proof : forall c sigma e esc fuel s,
+  pure e = true -> bound c s sigma -> (depth e <= fuel)%nat ->
+  res_rel s s (run_compiled c fuel esc s (compile_expr e))
+              (run_compiled c fuel esc s (compile_expr (subst sigma e))).
+Proof.
+  intros c sigma e esc fuel s Hp Hb Hd.
+  rewrite !compile_transparent_proof by (rewrite ?depth_subst; assumption).
+  apply hoist_equiv_proof; auto using same_refl.
+Qed.
+
+Lemma bound_single c s x l :
+  fst (load c (s_clos s) (s_env s) x) = Some (value_of_lit l) -> bound c s (single x l).
+Proof.
+  intros H y l' Hy. unfold single in Hy. destruct (y =? x) eqn:E; [|discriminate].
+  apply Z.eqb_eq in E. subst y. inversion Hy; subst. exact H.
+Qed.
+
+(* a folded literal form against the run-time evaluation of the hoisted form *)
+Lemma fold_agrees_hoisted_proof : forall c sigma e v esc fuel s,
+  pure e = true -> bound c s sigma -> (depth e <= fuel)%nat ->
+  as_const (subst sigma e) = Some v ->
+  exists s', eval c fuel esc s e = Ok (v, s') /\ same s s'.
+Proof.
+  intros c sigma e v esc fuel s Hp Hb Hd H.
+  pose proof (hoist_equiv_proof c sigma e esc fuel s s Hp (same_refl s) Hb) as R.
+  rewrite (fold_agrees_proof _ v H c fuel esc s) in R by (rewrite depth_subst; assumption).
+  destruct (eval c fuel esc s e) as [[v1 t1]| | |]; cbn [res_rel] in R; try tauto.
+  destruct R as (-> & A & _). exists t1. split; [reflexivity|exact A].
+Qed.
+
+(* a branch that is not taken is neither folded nor evaluated *)
+Lemma untaken_branch_proof : forall c fuel esc s F G,
+  compile_expr (EIf (EConst (LBool false)) F (Some G)) = CRuntime (EIf (EConst (LBool false)) F (Some G)) /\
+  eval c (S (S fuel)) esc s (EIf (EConst (LBool false)) F (Some G)) = eval c (S fuel) esc s G.
+Proof.
+  intros. split; [reflexivity|].
+  change (eval c (S (S fuel)) esc s (EIf (EConst (LBool false)) F (Some G)))
+    with (bind (eval c (S fuel) esc s (EConst (LBool false))) (fun '(x, s1) => bind (u_is_true (c_mode c) x) (fun b =>
+            if b then eval c (S fuel) esc s1 F else eval c (S fuel) esc s1 G))).
+  rewrite eval_const. cbn [bind lit_value]. unfold u_is_true. destruct (c_mode c); reflexivity.
+Qed.
+
+(* ------------------------------------------------------------------------------------------ *)
+(* folding at every level (compile_expr recursing into the operands it could not fold)          *)
+(* ------------------------------------------------------------------------------------------ *)
+Lemma bind_ext {A B} (o : outcome A) (k1 k2 : A -> outcome B) :
+  (forall a, k1 a = k2 a) -> bind o k1 = bind o k2.
+Proof. intros H. destruct o; cbn [bind]; auto. Qed.
+
+Lemma map_eval_ext (ev : st -> expr -> outcome (value * st)) (f : expr -> expr) items :
+  (forall x, In x items -> forall s, ev s (f x) = ev s x) ->
+  forall s, map_eval ev s (map f items) = map_eval ev s items.
+Proof.
+  induction items as [|x r IH]; intros H s; [reflexivity|].
+  cbn [map map_eval]. rewrite (H x (or_introl eq_refl)). apply bind_ext. intros [v s1].
+  rewrite IH; [reflexivity|]. intros y Hy. apply H. right. exact Hy.
+Qed.
+
+Lemma map_eval_kw_ext (ev : st -> expr -> outcome (value * st)) (f : expr -> expr) kw :
+  (forall p, In p kw -> forall s, ev s (f (snd p)) = ev s (snd p)) ->
+  forall s, map_eval_kw ev s (map (fun p => (fst p, f (snd p))) kw) = map_eval_kw ev s kw.
+Proof.
+  induction kw as [|[k x] r IH]; intros H s; [reflexivity|].
+  cbn [map map_eval_kw fst snd]. rewrite (H (k, x) (or_introl eq_refl)). apply bind_ext. intros [v s1].
+  rewrite IH; [reflexivity|]. intros y Hy. apply H. right. exact Hy.
+Qed.
+
+Lemma cmp_chain_ext m (ev : st -> expr -> outcome (value * st)) (f : expr -> expr) rest :
+  (forall p, In p rest -> forall s, ev s (f (snd p)) = ev s (snd p)) ->
+  forall left s, cmp_chain m ev left s (map (fun p => (fst p, f (snd p))) rest) = cmp_chain m ev left s rest.
+Proof.
+  induction rest as [|[op x] r IH]; intros H left s; [reflexivity|].
+  cbn [map cmp_chain fst snd]. rewrite (H (op, x) (or_introl eq_refl)). apply bind_ext. intros [y s2].
+  apply bind_ext. intros b.
+  assert (IH' := IH (fun q Hq => H q (or_intror Hq)) y s2).
+  destruct r as [|q r']; [reflexivity|]. cbn [map] in *. destruct b; [exact IH'|reflexivity].
+Qed.
+
+Lemma reify_atom_const v k : reify_atom v = Some k -> exists l, k = EConst l /\ lit_value l = v.
+Proof.
+  destruct v; cbn; intros H; try discriminate.
+  - inversion H. exists LNone. auto.
+  - inversion H. exists (LBool b). auto.
+  - inversion H. exists (LInt z). auto.
+  - destruct safe; inversion H. exists (LStr s). auto.
+Qed.
+
+Lemma reify_atoms_const_values vs : forall ks, reify_atoms vs = Some ks -> const_values ks = Some vs.
+Proof.
+  induction vs as [|v r IH]; intros ks H.
+  - inversion H. reflexivity.
+  - cbn [reify_atoms] in H. destruct (reify_atom v) as [a|] eqn:Ea; try discriminate.
+    destruct (reify_atoms r) as [l|] eqn:El; try discriminate. inversion H; subst.
+    destruct (reify_atom_const v a Ea) as [lt [-> Hl]]. cbn [const_values]. rewrite (IH l eq_refl). rewrite Hl. reflexivity.
+Qed.
+
+(* the literal of a folded value folds back to that value ... *)
+Lemma reify_as_const v k : reify v = Some k -> as_const k = Some v.
+Proof.
+  destruct v; cbn [reify]; intros H;
+    try (destruct (reify_atom_const _ _ H) as [l [-> Hl]]; unfold as_const; cbn [as_const_gen]; rewrite Hl; reflexivity).
+  destruct (reify_atoms l) as [ks|] eqn:E; cbn [omap] in H; try discriminate. inversion H; subst.
+  unfold as_const. cbn [as_const_gen]. rewrite (reify_atoms_const_values l ks E). reflexivity.
+Qed.
+
+Lemma reify_atoms_depth vs : forall ks, reify_atoms vs = Some ks -> (maxmap depth ks <= 1)%nat.
+Proof.
+  induction vs as [|v r IH]; intros ks H.
+  - inversion H. cbn. lia.
+  - cbn [reify_atoms] in H. destruct (reify_atom v) as [a|] eqn:Ea; try discriminate.
+    destruct (reify_atoms r) as [l|] eqn:El; try discriminate. inversion H; subst.
+    destruct (reify_atom_const v a Ea) as [lt [-> _]]. cbn [maxmap depth]. specialize (IH l eq_refl). lia.
+Qed.
+
+Lemma do_bin_not_list op x y l : do_bin op x y <> Ok (VList l).
+Proof.
+  destruct op, x, y; cbn; intros H; try discriminate;
+    repeat match type of H with
+           | (if ?b then _ else _) = _ => destruct b
+           | (let q := _ in _) = _ => cbv zeta in H
+           end; discriminate.
+Qed.
+
+(* ... and is never deeper than the expression it came from *)
+Lemma reify_depth e v k : as_const e = Some v -> reify v = Some k -> (depth k <= depth e)%nat.
+Proof.
+  intros He Hk. pose proof (depth_pos e) as Hpos.
+  destruct v; cbn [reify] in Hk;
+    try (destruct (reify_atom_const _ _ Hk) as [lt [-> _]]; cbn [depth]; lia).
+  destruct (reify_atoms l) as [ks|] eqn:E; cbn [omap] in Hk; try discriminate. inversion Hk; subst.
+  cbn [depth]. pose proof (reify_atoms_depth l ks E) as Hm.
+  destruct l as [|v0 l'].
+  { inversion E. cbn. lia. }
+  (* a non-empty list value: the expression has depth at least 2 *)
+  assert (2 <= depth e)%nat; [|lia].
+  unfold as_const in He.
+  destruct e as [lt|x|items|a|a|op a b|a rest|a b|a b|cnd a b|a b|a x|n a args|n a args ng|n args kw];
+    cbn [as_const_gen] in He; try discriminate; cbn [depth];
+    try (pose proof (depth_pos a); lia).
+  - destruct lt; discriminate.
+  - destruct items as [|x r]; [cbn in He; discriminate|]. cbn [maxmap]. pose proof (depth_pos x). lia.
+Qed.
+
+Lemma fold_sub_unfold e :
+  fold_sub e = match obind (as_const e) reify with Some k => k | None => descend fold_sub e end.
+Proof. destruct e; reflexivity. Qed.
+
+Section Deep.
+Variable c : cfg.
+Variable esc : bool.
+
+Lemma fold_sub_correct : forall fuel e, (depth e <= fuel)%nat ->
+  forall s, eval c fuel esc s (fold_sub e) = eval c fuel esc s e.
+Proof.
+  induction fuel as [|fuel IH]; intros e Hd s.
+  { pose proof (depth_pos e). lia. }
+  rewrite fold_sub_unfold.
+  destruct (obind (as_const e) reify) as [k|] eqn:Ek.
+  { (* folded here: one LoadConst *)
+    destruct (as_const e) as [v|] eqn:Ev; cbn [obind] in Ek; try discriminate.
+    rewrite (fold_agrees_proof e v Ev c (S fuel) esc s Hd).
+    apply fold_agrees_proof; [apply reify_as_const; exact Ek|].
+    pose proof (reify_depth e v k Ev Ek). lia. }
+  clear Ek.
+  assert (IHl : forall l, (maxmap depth l <= fuel)%nat -> forall s,
+            map_eval (eval c fuel esc) s (map fold_sub l) = map_eval (eval c fuel esc) s l).
+  { intros l Hl. apply map_eval_ext. intros x Hx. apply IH. pose proof (maxmap_in depth l x Hx). lia. }
+  destruct e; cbn [descend]; cbn [depth] in Hd; try reflexivity.
+  - (* EList *) cbn [eval]. rewrite IHl by lia. reflexivity.
+  - (* ENeg *) cbn [eval]. rewrite IH by lia. reflexivity.
+  - (* ENot *) cbn [eval]. rewrite IH by lia. reflexivity.
+  - (* EBin *) cbn [eval]. rewrite (IH e1) by lia. apply bind_ext. intros [x s1]. rewrite (IH e2) by lia. reflexivity.
+  - (* ECmp *) cbn [eval]. rewrite (IH e) by lia. apply bind_ext. intros [x s1].
+    apply cmp_chain_ext. intros p Hp. apply IH.
+    pose proof (maxmap_in (fun p => depth (snd p)) rest p Hp). cbn beta in *. lia.
+  - (* EAnd *) cbn [eval]. rewrite (IH e1) by lia. apply bind_ext. intros [x s1]. apply bind_ext. intros t.
+    destruct t; [apply IH; lia|reflexivity].
+  - (* EOr *) cbn [eval]. rewrite (IH e1) by lia. apply bind_ext. intros [x s1]. apply bind_ext. intros t.
+    destruct t; [reflexivity|apply IH; lia].
+  - (* EIf *) cbn [eval]. rewrite (IH e1) by lia. apply bind_ext. intros [x s1]. apply bind_ext. intros b.
+    destruct b; [apply IH; lia|]. destruct f as [f|]; [apply IH; lia|reflexivity].
+  - (* EItem *) cbn [eval]. rewrite (IH e1) by lia. apply bind_ext. intros [x s1]. rewrite (IH e2) by lia. reflexivity.
+  - (* EAttr *) cbn [eval]. rewrite (IH e) by lia. reflexivity.
+  - (* EFilter *) cbn [eval]. rewrite (IH e) by lia. apply bind_ext. intros [x s1]. rewrite IHl by lia. reflexivity.
+  - (* ETest *) cbn [eval]. rewrite (IH e) by lia. apply bind_ext. intros [x s1]. rewrite IHl by lia. reflexivity.
+  - (* ECall *) cbn [eval]. rewrite IHl by lia. apply bind_ext. intros [vs s1].
+    rewrite map_eval_kw_ext; [reflexivity|]. intros p Hp. apply IH.
+    pose proof (maxmap_in (fun p => depth (snd p)) kwargs p Hp). cbn beta in *. lia.
+Qed.
+End Deep.
+
+Lemma fold_everywhere_proof : forall e c fuel esc s, (depth e <= fuel)%nat ->
+  eval c fuel esc s (fold_sub e) = eval c fuel esc s e.
+Proof. intros. apply fold_sub_correct; assumption. Qed.
+
+Lemma literal_variable_equiv_deep_proof : forall c sigma e esc fuel s,
+  pure e = true -> bound c s sigma -> (depth e <= fuel)%nat ->
+  res_rel s s (eval c fuel esc s (fold_sub e)) (eval c fuel esc s (fold_sub (subst sigma e))).
+Proof.
+  intros c sigma e esc fuel s Hp Hb Hd.
+  rewrite !fold_everywhere_proof by (rewrite ?depth_subst; assumption).
+  apply hoist_equiv_proof; auto using same_refl.
+Qed.
